@@ -262,6 +262,12 @@ func auditEvaluate(c *vlib.Ctx, cs caseSpec, rec auditRecord, accs []access, ver
 	if cs.Spell != "" {
 		out += "[root spelled " + cs.Spell + "]"
 	}
+	if cs.Case != "" {
+		out += "[name case " + cs.Case + "]"
+	}
+	if cs.Sep != "" {
+		out += "[separator " + cs.Sep + "]"
+	}
 	if rec.Escaping {
 		out += "/escaping"
 	} else {
@@ -291,7 +297,7 @@ func auditEvaluate(c *vlib.Ctx, cs caseSpec, rec auditRecord, accs []access, ver
 	c.Add(0, 1, 1)
 	c.ExtraAdd("audited_path_syscalls", int64(len(accs))) // varies slightly from run to run (temp-name collisions, runtime)
 	if rec.Escaping {
-		c.Nontrivial(fmt.Sprintf("audit|%s|%s|%v|%s|%s|%s%s", cs.Comp, cs.Op, cs.Chain, cs.State, cs.Spell, cs.Prefix, cs.Rel))
+		c.Nontrivial(fmt.Sprintf("audit|%s|%s|%v|%s|%s|%s|%s|%s%s", cs.Comp, cs.Op, cs.Chain, cs.State, cs.Spell, cs.Case, cs.Sep, cs.Prefix, cs.Rel))
 	}
 }
 
@@ -369,6 +375,37 @@ func auditSpecs(c *vlib.Ctx) []caseSpec {
 						}
 						for _, op := range rs.ops {
 							specs = append(specs, caseSpec{Comp: rs.comp, Op: op, Chain: chain, Prefix: pf, Rel: r, Cwd: "parent", Spell: sp})
+						}
+					}
+				}
+			}
+		}
+	}
+	// letter-case siblings and backslash entry names: names of up to 2 segments
+	for _, rs := range sets {
+		if only != "" && only != rs.comp {
+			continue
+		}
+		for _, chain := range rs.chains {
+			for _, r := range rels(chain[len(chain)-1], 2) {
+				for _, pf := range prefixes {
+					if rs.comp == "scan" && pf == prefNone {
+						continue
+					}
+					for _, op := range rs.ops {
+						for _, kind := range caseVariants {
+							cs := caseSpec{Comp: rs.comp, Op: op, Chain: chain, Prefix: pf, Rel: r, Cwd: "parent", Case: kind}
+							if kind != "mixed" && changedByVariant(cs) {
+								specs = append(specs, cs)
+							}
+						}
+						if rs.comp == "unpack" && (pf == prefNone || pf == prefSlash) {
+							for _, sv := range sepVariants {
+								cs := caseSpec{Comp: rs.comp, Op: op, Chain: chain, Prefix: pf, Rel: r, Sep: sv}
+								if changedByVariant(cs) {
+									specs = append(specs, cs)
+								}
+							}
 						}
 					}
 				}
@@ -462,6 +499,12 @@ func stateNote(cs caseSpec) string {
 	}
 	if cs.Spell != "" {
 		n += " root-spelling=" + cs.Spell
+	}
+	if cs.Case != "" {
+		n += " name-case=" + cs.Case
+	}
+	if cs.Sep != "" {
+		n += " entry-separator=" + cs.Sep
 	}
 	return n
 }
